@@ -1,10 +1,33 @@
 package main
 
-import "github.com/scottyw/tetromino/gameboy/timer"
+import (
+	"github.com/scottyw/tetromino/gameboy/audio"
+	"github.com/scottyw/tetromino/gameboy/controller"
+	"github.com/scottyw/tetromino/gameboy/interrupts"
+	"github.com/scottyw/tetromino/gameboy/memory"
+	"github.com/scottyw/tetromino/gameboy/oam"
+	"github.com/scottyw/tetromino/gameboy/ppu"
+	"github.com/scottyw/tetromino/gameboy/serial"
+	"github.com/scottyw/tetromino/gameboy/timer"
+)
 
 // Script operations tm.* on the real timer.Timer (same names and output format as coq/extract/r_timer.ml).
 
 var tm *timer.Timer
+
+// the same timer behind the real address decoder: wired as gameboy.New wires it (ROM-only 32 KiB image)
+var tmbTimer *timer.Timer
+var tmbIrq *interrupts.Interrupts
+var tmbBus *memory.Mapper
+
+func tmbNew() {
+	tmbIrq = interrupts.New()
+	o := oam.New()
+	tmbTimer = timer.New()
+	tmbBus = memory.New(make([]byte, 0x8000), tmbIrq, o, ppu.New(tmbIrq, o, false), controller.New(),
+		serial.New(nil), tmbTimer, audio.New(nil, nil))
+	tmbBus.Write(0xff0f, 0)
+}
 
 func tmObs() (int, int, int, int) {
 	return int(tm.ReadDIV()), int(tm.ReadTIMA()), int(tm.ReadTMA()), int(tm.ReadTAC())
@@ -121,6 +144,23 @@ func init() {
 			h, k := tmDfs(alpha, &c, depth-1, tmMix(0, irq, &c), nt)
 			emit("%d %d %d", i, h, k)
 		}
+	})
+	// tmb.*: registers accessed through Mapper.Read/Write (FF04-FF07); tmb.cycle ends a machine cycle the way
+	// runFrame does (EndMachineCycle, then RequestTimer on true) and prints IF bit 2 and the four registers
+	onReset(func() { tmbBus = nil })
+	register("tmb.new", func(a []string) { tmbNew() })
+	register("tmb.setc", func(a []string) { tmbTimer.VSetCounter(uint16(ai(a, 1))) })
+	register("tmb.w", func(a []string) { tmbBus.Write(uint16(ai(a, 1)), uint8(ai(a, 2))) })
+	register("tmb.r", func(a []string) {
+		emit("%d %d %d %d", tmbBus.Read(0xff04), tmbBus.Read(0xff05), tmbBus.Read(0xff06), tmbBus.Read(0xff07))
+	})
+	register("tmb.cycle", func(a []string) {
+		if tmbTimer.EndMachineCycle() {
+			tmbIrq.RequestTimer()
+		}
+		irq := (tmbBus.Read(0xff0f) >> 2) & 1
+		tmbBus.Write(0xff0f, 0)
+		emit("%d %d %d %d %d", irq, tmbBus.Read(0xff04), tmbBus.Read(0xff05), tmbBus.Read(0xff06), tmbBus.Read(0xff07))
 	})
 	register("tm.rand", func(a []string) {
 		x := int64(ai(a, 1))
